@@ -173,6 +173,16 @@ k_ = Strategy("k", stack(), children=["a"], parent=p_); k_.setup_from_parent(); 
 evals += 1
 if list(d_own.columns) != cols0: fail("caller-frame-gained-columns", columns=list(map(str, d_own.columns)))
 if "k" not in p_._universe.columns: fail("dynamic-sub-strategy-has-a-universe-column", columns=list(map(str, p_._universe.columns)))
+# the same with the parent's universe looked at on the date before the child is attached: the window handed out afterwards has the column, carrying the child's index
+for looked in (False, True):
+    d_w = mkdata(6)
+    pw = Strategy("p", stack()); pw.setup(d_w); pw.adjust(10000.0); pw.update(d_w.index[0]); pw.update(d_w.index[1])
+    if looked: pw.universe
+    kw_ = Strategy("k", stack(), children=["a"], parent=pw); kw_.setup_from_parent(); kw_.update(pw.now); pw.allocate(1000.0, "k"); pw.update(d_w.index[1])
+    evals += 1
+    win = pw.universe         # compared from the date of the attachment on (the child has no index before it)
+    if "k" not in win.columns: fail("dynamic-sub-strategy-has-a-universe-column", through="universe (the window up to now)", looked_at_before=looked, columns=list(map(str, win.columns)))
+    elif not np.array_equal(win["k"].to_numpy()[1:], kw_.prices.to_numpy()[1:], equal_nan=True): fail("strategy-column-carries-child-index", node="p", child="k", looked_at_before=looked, column=[float(x) for x in win["k"].to_numpy()], index=[float(x) for x in kw_.prices.to_numpy()])
 # ---- operations on a child before its first use: a string-declared child behaves like one constructed up front
 for op in ("close", "rebalance-to-zero", "allocate", "transact"):
     outcome = {}
